@@ -179,3 +179,9 @@ def function_inputs(target, seed=0, n=400):
         for _ in range(n):
             k = rng.randint(1, 3)
             yield dict(reference_labels=[rng.choice(labs) for _ in range(k)], estimated_labels=[rng.choice(labs) for _ in range(k)])
+    if target == 'key.weighted_score':
+        ks = ['C major', 'c minor', 'G major', 'a minor', 'A major', 'e minor', 'Eb major', 'd# minor', 'X', 'x', 'F# other', 'Gb other', 'B major', 'Cb' ]
+        ks = [k for k in ks if ' ' in k or k.lower() == 'x']
+        for a in ks:
+            for b in ks:
+                yield dict(reference_key=a, estimated_key=b)
